@@ -26,6 +26,8 @@ partial def opOf? : Sexp → Option OpName
   | .list [.atom "rename", .atom s, .atom d] => some (.rename s d)
   | .list [.atom "flatten_keys"] => some .flattenKeys
   | .list [.atom "clone"] => some .clone
+  | .list [.atom "setconst"] => some .setConst
+  | .list [.atom "deepen"] => some .deepen
   | .list [.atom "vmap", i, o, .list (.atom "prog" :: ops)] => do
       pure (.vmap (← asInt? i) (← asInt? o) (← ops.mapM opOf?))
   | _ => none
@@ -76,6 +78,16 @@ def tdToSexp (td : TD) : Sexp :=
   tagged "ok" [tagged "batch" (td.batch.map ofNat), tagged "names" (td.names.map nameToSexp),
     tagged "leaves" (td.leaves.map (fun p => .list [.atom p.1, ofNats p.2.shape, ofInts p.2.toList]))]
 
+def tdToSexpN (td : TD) (nodes : List (String × Shape)) : Sexp :=
+  tagged "ok" [tagged "batch" (td.batch.map ofNat), tagged "names" (td.names.map nameToSexp),
+    tagged "leaves" (td.leaves.map (fun p => .list [.atom p.1, ofNats p.2.shape, ofInts p.2.toList])),
+    tagged "nodes" (nodes.map (fun p => .list [.atom p.1, ofNats p.2]))]
+
+def endsWithDeepen : List OpName → Bool
+  | [] => false
+  | [.deepen] => true
+  | _ :: rest => endsWithDeepen rest
+
 end C19D
 
 /-- line-protocol handler for C19: commands are named `c19.<something>` -/
@@ -94,7 +106,11 @@ def handleC19 (cmd : String) (args : List Sexp) : Option Sexp :=
       | .ok (tops, bout) =>
         let rout := bout.length
         if o < -((rout : Int) + 1) || o > (rout : Int) then pure (.list [.atom "err", .atom "out_dim"]) else
-        pure (C19D.tdToSexp (vmapTD tops i' (normOutDim o rout) 1 td))
+        let res := vmapTD tops i' (normOutDim o rout) 1 td
+        -- a trailing `deepen` re-declares the nested node `n` of the per-sample output with batch size bout ++ [1]
+        let nodes := if C19D.endsWithDeepen ops && res.leaves.any (fun p => p.1 == "n.x")
+          then [("n", removeBDNode (normOutDim o rout) (td.batch.getD i' 0) (bout ++ [1]))] else []
+        pure (C19D.tdToSexpN res nodes)
   | "c19.loop", [td, i, o, .list (.atom "prog" :: ops)] => do
       -- the specification side: stack over the slices of the program applied to each slice
       let td ← C19D.tdOf? td
@@ -139,11 +155,18 @@ def handleC19 (cmd : String) (args : List Sexp) : Option Sexp :=
       let r := td.batch.length
       if i < -(r : Int) || i ≥ (r : Int) then pure (.list [.atom "err", .atom "in_dim"]) else
       if o < -(r : Int) || o > ((r : Int) - 1) then pure (.list [.atom "err", .atom "out_dim"]) else
-      let tops := ops.filterMap (fun n => match n with
-        | .mul2 | .add1 | .neg | .clone => n.simpleOp
+      let i' := normInDim i r
+      -- the value written by `setconst` has the per-sample batch size; `sdv` is where the (visible) stack dimension sits in it
+      let pb := td.batch.eraseIdx i'
+      let sdv := if i' < sd then sd - 1 else sd
+      let lops := ops.filterMap (fun n => match n with
+        | .mul2 | .add1 | .neg | .clone => n.simpleOp.map LOp.derive
+        | .setConst => some (LOp.setConst "c" (if i' = sd then arangeT 100000 (pb ++ [2])
+                                                else ⟨pb ++ [2], (arangeT 100000 (pb ++ [2])).get⟩))
         | _ => none)
-      if tops.length ≠ ops.length then pure (.list [.atom "err", .atom "op"]) else
-      let res := vmapLazyI tops (normInDim i r) o 1 (LTD.ofDense td sd)
+      let _ := sdv
+      if lops.length ≠ ops.length then pure (.list [.atom "err", .atom "op"]) else
+      let res := vmapLazyL lops i' o 1 (LTD.ofDense td sd)
       pure (C19D.tdToSexp res.dense)
   | "c19.leaf", [.list (.atom "shape" :: s), i, o] => do
       -- the functorch primitive on a plain tensor: wrap at i, unwrap at o
